@@ -53,7 +53,7 @@ def run_table(ck: Check, rules):
     reqs, expect = [], []
     for fam, name, grid, centres, R in grids():
         field = Emulsion([DiffuseDroplet(np.array(c, float), R, 1.0) for c in centres]).get_phasefield(grid)
-        for modes, width, refine, rule in itertools.product(MODES, [None, 0.75], [False, True], rules):
+        for modes, width, refine, rule in itertools.product(MODES, [None, 0.0, 0.75], [False, True], rules):
             case = {"grid": name, "family": fam, "dim": grid.dim, "modes": modes, "interface_width": width, "refine": refine, "threshold": rule}
             sig = {"family": fam, "dim": grid.dim, "modes_positive": modes > 0, "refine": refine, "width": width is not None}
             ck.case((name, modes, width, refine, rule))
@@ -115,7 +115,7 @@ def replay(case: dict):
 def run(ck: Check):
     rules = [0.5] if ck.quick else [0.5, "auto", "extrema", "mean", "otsu"]
     ck.rule = ("complete table: 10 grids (Cartesian 1/2/3-D and cylindrical, each periodic and not; polar; spherical) x modes {0,1,2,3,8} x "
-               "interface_width {None, 0.75} x refine {off,on}" + (" x 5 threshold rules" if not ck.quick else "") + "; every cell is a distinct non-trivial case")
+               "interface_width {None, 0.0, 0.75} x refine {off,on}" + (" x 5 threshold rules" if not ck.quick else "") + "; every cell is a distinct non-trivial case")
     ck.exhaustive = True
     ck.assumptions = ["the table is complete over the listed factors; the theorem resultClass_spec covers all mode counts"]
     ck.lean = lean_stage("C19", leanchecker=not ck.quick)
